@@ -3,12 +3,14 @@
    worker slots than its work_capacity (C08_worker_slots_bounded_everywhere, lifted through every
    process block in theories/Factory/FactoryRes.v); the worker-slot resource (simpy.Resource model)
    never has more users than its capacity, whatever sequence of requests / releases / kernel
-   callbacks occurs; a delay draw advances the node's delay stream by exactly one.  The timing statements (offer = pull + delay,
+   callbacks occurs; the loop heads of Machine.behaviour and Combiner.behaviour touch no edge, no item
+   and no trace entry and suspend the process on the slot request they issue -- nothing is reserved
+   or pulled before the slot is granted (C08_*_asks_for_slot_first); a delay draw advances the node's delay stream by exactly one.  The timing statements (offer = pull + delay,
    late only if blocked) are carried by the executable factory model, which is compared
    trace-exactly with the real classes; they are not proved for every configuration -- partial. *)
 From Coq Require Import List ZArith Bool Arith Lia.
 From FV Require Import Kernel World Factory.
-From FV Require FactoryInv FactoryRes.
+From FV Require FactoryInv FactoryRes FactorySlotFirst.
 Import ListNotations.
 
 (* every configuration (nodes, edges, construction order) whose nodes start with the resource the
@@ -48,3 +50,23 @@ Proof.
   apply IH. lia.
 Qed.
 Print Assumptions C08_one_draw.
+
+(* slot before pull: the loop head of Machine.behaviour ... *)
+Theorem C08_machine_asks_for_slot_first :
+  forall w p n, FactorySlotFirst.quiet w (fst (machine_request w p n)) /\ FactorySlotFirst.waits_for_slot (machine_request w p n) p.
+Proof. exact FactorySlotFirst.machine_request_slot_first. Qed.
+Print Assumptions C08_machine_asks_for_slot_first.
+
+(* ... and of Combiner.behaviour (the order repaired by f4032e8), entered at the end of the set-up period *)
+Theorem C08_combiner_asks_for_slot_first :
+  forall w p, ppc (me w p) = 1%nat ->
+    FactorySlotFirst.quiet w (fst (combiner_block w p)) /\ FactorySlotFirst.waits_for_slot (combiner_block w p) p.
+Proof. exact FactorySlotFirst.combiner_after_setup_slot_first. Qed.
+Print Assumptions C08_combiner_asks_for_slot_first.
+
+(* ... and again after each finished pallet has been handed to its worker process *)
+Theorem C08_combiner_asks_for_slot_first_again :
+  forall w p, (6 <= ppc (me w p))%nat ->
+    FactorySlotFirst.quiet w (fst (combiner_block w p)) /\ FactorySlotFirst.waits_for_slot (combiner_block w p) p.
+Proof. exact FactorySlotFirst.combiner_after_handover_slot_first. Qed.
+Print Assumptions C08_combiner_asks_for_slot_first_again.
